@@ -227,8 +227,10 @@ Print Assumptions C07_equal_variance_tmp.
     (kappa / (2 beta^2) per ordered pair of teams in the full model; kappa / (8 beta^2) per
     ordered neighbour pair, at most 2 per team, in the partial one).
     PARTIAL: the property's sharper "2 kappa / c^2 per TIED pair" is proved at the [compute]
-    level ([C07_tmf], [C07_tmp]) for the sorted game; it is not restated here in terms of the
-    caller's rank keys (one would have to name the tied pairs of the sorted game). *)
+    level ([C07_tmf], [C07_tmp]) for the sorted game, and through [rate_core] in terms of the
+    caller's rank keys at the end of this file ([C07_rate_tmf_sharp], [C07_rate_tmp_sharp],
+    [C07_rate_tmp_sharp_neighbours], [C07_rate_tm_no_ties]); the two coarse bounds below are
+    kept as simple corollary-style statements. *)
 Theorem C07_rate_tmf_partial : forall (Phi Phiinv : R -> R) (P : params R) (tau : R) (limit : bool)
     (teams : list (list (rating R))) (keys : option (list key)),
   (2 <= length teams)%nat -> 0 < p_beta P -> 0 < p_kappa P ->
